@@ -2,6 +2,7 @@ import JominiModel.Model.Encoding
 import JominiModel.Spec.Encoding
 import JominiModel.Generated.Tables
 import JominiModel.Proofs.Encoding
+import JominiModel.Proofs.EncodingBorrow
 import JominiModel.Proofs.DecodeBridge
 /-
 C12 — String decoding always yields valid UTF-8 equal to the reference mapping.
@@ -106,6 +107,55 @@ theorem C12_utf8_borrowed_sound (d b : Bytes) (h : decodeUtf8 d = .ok (.borrowed
 
 -- valid non-ASCII UTF-8 without escapes is borrowed too
 example : decodeUtf8 [0xc3, 0xa5] = .ok (.borrowed [0xc3, 0xa5]) := by decide +kernel
+
+/-- the UTF-8 decoder borrows *exactly* when the trimmed input has no escape and is
+well-formed UTF-8 (converse of `C12_utf8_borrowed_sound`: on such input the `Utf8Chunks`
+scanner of `from_utf8_lossy` reports no invalid part, so nothing is allocated).  Holds with
+no exception for the empty / all-whitespace input (`trim d = []` is borrowed). -/
+theorem C12_utf8_borrowed_iff (d : Bytes) :
+    (∃ b, decodeUtf8 d = .ok (.borrowed b)) ↔ (92 ∉ trim d ∧ Valid (trim d)) := by
+  constructor
+  · rintro ⟨b, hb⟩
+    refine ⟨fun h92 => ?_, (C12_utf8_borrowed_sound d b hb).2⟩
+    obtain ⟨s, hs⟩ := decodeUtf8_escape_owned d h92
+    rw [hb] at hs; cases hs
+  · rintro ⟨h92, hv⟩
+    exact ⟨_, decodeUtf8_valid_borrowed d h92 hv⟩
+
+-- an instance with non-ASCII bytes ("å"), and a non-instance (C3 not followed by a continuation)
+example : 92 ∉ trim [0xc3, 0xa5] ∧ Valid (trim [0xc3, 0xa5]) := by decide +kernel
+example : ∃ b, decodeUtf8 [0xc3, 0xa5] = .ok (.borrowed b) := (C12_utf8_borrowed_iff _).2 (by decide +kernel)
+example : ¬ ∃ b, decodeUtf8 [0xc3, 0x28] = .ok (.borrowed b) :=
+  fun h => absurd ((C12_utf8_borrowed_iff _).1 h) (by decide +kernel)
+example : decodeUtf8 [0xc3, 0x28] = .ok (.owned [0xef, 0xbf, 0xbd, 0x28]) := by decide +kernel
+example : decodeUtf8 [0x20, 0x0a] = .ok (.borrowed []) := by decide +kernel
+
+/-- complement: the UTF-8 decoder allocates (`Cow::Owned`) *exactly* when the trimmed input
+contains an escape or is ill-formed; it never panics, so these are the only two outcomes. -/
+theorem C12_utf8_owned_iff (d : Bytes) :
+    (∃ s, decodeUtf8 d = .ok (.owned s)) ↔ (92 ∈ trim d ∨ ¬ Valid (trim d)) := by
+  constructor
+  · rintro ⟨s, hs⟩
+    by_cases h92 : 92 ∈ trim d
+    · exact .inl h92
+    · refine .inr fun hv => ?_
+      rw [decodeUtf8_valid_borrowed d h92 hv] at hs; cases hs
+  · rintro (h92 | hv)
+    · exact decodeUtf8_escape_owned d h92
+    · exact decodeUtf8_invalid_owned d (by simpa [Valid] using hv)
+
+/-- for escape-free input the decoded bytes are the trimmed input itself iff it is
+well-formed UTF-8 (otherwise at least one U+FFFD was substituted). -/
+theorem C12_utf8_identity_iff (d : Bytes) (h92 : 92 ∉ trim d) :
+    (∃ c, decodeUtf8 d = .ok c ∧ c.bytes = trim d) ↔ Valid (trim d) := by
+  constructor
+  · rintro ⟨c, h1, h2⟩
+    obtain ⟨c', h1', hv⟩ := (C12_valid d).2
+    rw [h1] at h1'; cases h1'; rwa [h2] at hv
+  · intro hv
+    exact ⟨_, decodeUtf8_valid_borrowed d h92 hv, rfl⟩
+
+example : ∃ s, decodeUtf8 [0x61, 0x5c, 0x62] = .ok (.owned s) := (C12_utf8_owned_iff _).2 (.inl (by decide +kernel))
 
 /-! ### bridges: the string decoders other slices re-model locally are the C12 model
 
